@@ -4,7 +4,9 @@ patch=$1; shift
 git -C /repo status --short | grep -q . && { echo "repo not clean"; exit 2; }
 git -C /repo apply "$patch" || { echo "patch does not apply"; exit 2; }
 for p in "$@"; do
+  cp /verif/evidence/$p.json /tmp/try_ev_$p.json 2>/dev/null     # evidence written under a seeded tree is not evidence
   /verif/bin/check $p > /tmp/try_$p.out 2>&1; rc=$?
   echo "$p exit=$rc $(grep -c VIOLATION /tmp/try_$p.out) violations; $(grep -m3 -E '^  [A-Z][0-9]+_|^  [A-Z]+[0-9]*_|TOOL-ERROR' /tmp/try_$p.out | tr '\n' ';' | cut -c1-300)"
+  [ -f /tmp/try_ev_$p.json ] && mv /tmp/try_ev_$p.json /verif/evidence/$p.json
 done
 git -C /repo checkout -- .
